@@ -387,5 +387,71 @@ pub proof fn lemma_last_is_sorted_last<C: Ciphersuite>(s: Set<Identifier<C>>)
     }
 }
 
+
+// ---- share refresh (C10) ----
+pub open spec fn identity_cc<C: Ciphersuite>() -> crate::keys::CoefficientCommitment<C> { crate::keys::CoefficientCommitment::<C>(crate::serialization::SerializableElement(e0::<C>())) }
+pub open spec fn spec_with_identity<C: Ciphersuite>(c: Seq<crate::keys::CoefficientCommitment<C>>) -> Seq<crate::keys::CoefficientCommitment<C>> { seq![identity_cc::<C>()] + c }
+
+// a refreshing share for `id` of the zero-constant polynomial r: as a dealer share but with the (identity) constant-term commitment removed
+pub open spec fn spec_is_refreshing_share<C: Ciphersuite>(sh: crate::keys::SecretShare<C>, id: Identifier<C>, r: Seq<Scalar<C>>) -> bool {
+    sh.header == default_header::<C>() && sh.identifier == id
+    && sh.signing_share.0.0 == poly::<AL<C>>(r, id.0.0)
+    && sh.commitment.0@ == spec_commitment::<C>(r).drop_first()
+}
+
+// loop accumulator of compute_refreshing_shares after j identifiers
+pub open spec fn spec_refresh_acc<C: Ciphersuite>(out: Seq<crate::keys::SecretShare<C>>, vs: Map<Identifier<C>, crate::keys::VerifyingShare<C>>,
+        pk: crate::keys::PublicKeyPackage<C>, ids: Seq<Identifier<C>>, r: Seq<Scalar<C>>, j: int) -> bool {
+    out.len() == j && vs.dom() == ids.take(j).to_set()
+    && (forall|k: int| 0 <= k < j ==> spec_is_refreshing_share::<C>(#[trigger] out[k], ids[k], r))
+    && (forall|k: int| 0 <= k < j ==> vs[#[trigger] ids[k]] == crate::keys::VerifyingShare::<C>(crate::serialization::SerializableElement(
+            eadd::<C>(gmul::<C>(poly::<AL<C>>(r, ids[k].0.0)), pk.verifying_shares@[ids[k]].0.0))))
+}
+
+pub open spec fn spec_refresh_output<C: Ciphersuite>(out: Seq<crate::keys::SecretShare<C>>, npk: crate::keys::PublicKeyPackage<C>,
+        pk: crate::keys::PublicKeyPackage<C>, ids: Seq<Identifier<C>>, r: Seq<Scalar<C>>) -> bool {
+    spec_refresh_acc::<C>(out, npk.verifying_shares@, pk, ids, r, ids.len() as int)
+    && npk.header == pk.header && npk.verifying_key == pk.verifying_key && npk.min_signers == pk.min_signers
+}
+
+pub proof fn lemma_refresh_acc_step<C: Ciphersuite>(out: Seq<crate::keys::SecretShare<C>>, vs: Map<Identifier<C>, crate::keys::VerifyingShare<C>>,
+        pk: crate::keys::PublicKeyPackage<C>, ids: Seq<Identifier<C>>, r: Seq<Scalar<C>>, j: int, sh: crate::keys::SecretShare<C>)
+    requires 0 <= j < ids.len(), ids.no_duplicates(), spec_refresh_acc::<C>(out, vs, pk, ids, r, j), spec_is_refreshing_share::<C>(sh, ids[j], r)
+    ensures spec_refresh_acc::<C>(out.push(sh), vs.insert(ids[j], crate::keys::VerifyingShare::<C>(crate::serialization::SerializableElement(
+            eadd::<C>(gmul::<C>(poly::<AL<C>>(r, ids[j].0.0)), pk.verifying_shares@[ids[j]].0.0)))), pk, ids, r, j + 1)
+{
+    let vs2 = vs.insert(ids[j], crate::keys::VerifyingShare::<C>(crate::serialization::SerializableElement(
+            eadd::<C>(gmul::<C>(poly::<AL<C>>(r, ids[j].0.0)), pk.verifying_shares@[ids[j]].0.0))));
+    assert(ids.take(j + 1) =~= ids.take(j).push(ids[j]));
+    assert(vs2.dom() =~= ids.take(j + 1).to_set()) by {
+        assert forall|x: Identifier<C>| vs2.dom().contains(x) <==> ids.take(j + 1).to_set().contains(x) by {
+            if vs.dom().contains(x) { let w = choose|w: int| 0 <= w < ids.take(j).len() && ids.take(j)[w] == x; assert(ids.take(j + 1)[w] == x); }
+            if x == ids[j] { assert(ids.take(j + 1)[j] == x); }
+            if ids.take(j + 1).contains(x) { let w = choose|w: int| 0 <= w < j + 1 && #[trigger] ids.take(j + 1)[w] == x; if w < j { assert(ids.take(j)[w] == x); assert(ids.take(j).contains(x)); } }
+        }
+    }
+    assert forall|k: int| 0 <= k < j + 1 implies vs2[#[trigger] ids[k]] == crate::keys::VerifyingShare::<C>(crate::serialization::SerializableElement(
+            eadd::<C>(gmul::<C>(poly::<AL<C>>(r, ids[k].0.0)), pk.verifying_shares@[ids[k]].0.0))) by { if k < j { assert(ids[k] != ids[j]); } }
+}
+
+// refresh_share as a total function of its two arguments (C10: the returned package is re-linked)
+pub open spec fn spec_refresh_share<C: Ciphersuite>(rs: crate::keys::SecretShare<C>, cur: crate::keys::KeyPackage<C>) -> Result<crate::keys::KeyPackage<C>, Error<C>> {
+    match spec_share_ok_c::<C>(rs.signing_share.0.0, rs.identifier, spec_with_identity::<C>(rs.commitment.0@)) {
+        Err(e) => Err(e),
+        Ok(_) => if (spec_with_identity::<C>(rs.commitment.0@).len() as u16) != cur.min_signers { Err(Error::InvalidMinSigners) } else {
+            let s = sadd::<C>(rs.signing_share.0.0, cur.signing_share.0.0);
+            Ok(crate::keys::KeyPackage::<C> { header: cur.header, identifier: cur.identifier,
+                signing_share: crate::keys::SigningShare(crate::serialization::SerializableScalar(s)),
+                verifying_share: crate::keys::VerifyingShare(crate::serialization::SerializableElement(gmul::<C>(s))),
+                verifying_key: cur.verifying_key, min_signers: cur.min_signers })
+        },
+    }
+}
+// spec_share_ok over the components (so that it does not depend on which Vec holds the commitment)
+pub open spec fn spec_share_ok_c<C: Ciphersuite>(s: Scalar<C>, id: Identifier<C>, c: Seq<crate::keys::CoefficientCommitment<C>>) -> Result<(), Error<C>> {
+    if gmul::<C>(s) != spec_vss::<C>(comm_vals::<C>(c), id.0.0, s1::<C>()) { Err(Error::InvalidSecretShare { culprit: None }) }
+    else if c.len() == 0 { Err(Error::MissingCommitment) } else { Ok(()) }
+}
+
 } // verus!
 }
